@@ -158,6 +158,25 @@ def call_list(seed):
         calls.append(["algo", m, a.zfill(10)])
     for b in ("GENODEM1GLS", "GENODEM1GL!", "DEUTDEFF", "AAAAXX22", "1234DEWWXXX"):
         calls += [["bic", b, False], ["bic", b, True]]
+    # near-miss siblings of accepted texts: one character replaced by a foreign one (non-ASCII digit / letter of the
+    # same str.isalnum()/isdigit() class, punctuation), right after the accepted text and - in the reversed history -
+    # right before it.  A memo keyed by PART of a text (the BIC8, the bank code, the country prefix) lets a sibling
+    # ride on an earlier acceptance whenever its fast path checks less than the full path (round 6, C04).
+    foreign = ["\u0663", "\uff11", "\u00c4", "!"]
+    for good in ("DEUTDEFF", "GENODEM1GLS", "MARKDEF1100"):
+        base = good if len(good) == 11 else good + "500"
+        for flag in (False, True):
+            calls.append(["bic", good, flag])
+            for pos in (0, 4, 6, 8, 9, 10):
+                for ch in foreign:
+                    calls.append(["bic", base[:pos] + ch + base[pos + 1:], flag])
+            calls.append(["bic", good, flag])
+    for good in ("DE89370400440532013000", "GB29NWBK60161331926819", "NO9386011117947", "FR1420041010050500013M02606"):
+        calls.append(["iban", good, True])
+        for pos in (0, 2, 4, len(good) // 2, len(good) - 1):
+            for ch in foreign[:3]:
+                calls.append(["iban", good[:pos] + ch + good[pos + 1:], True])
+        calls.append(["iban", good, True])
     calls += [["gen", "DE", "37040044", "532013000"], ["gen", "DE", "3704004-", "1"], ["gen", "ES", "2100", "200051332"],
               ["gen", "NO", "8601", "111794"], ["gen", "XX", "1", "2"], ["gen", "PL", "10901014", "0000071219812874"]]
     # countries that share a structure string but publish different positions, in both orders (caches keyed too coarsely)
